@@ -23,37 +23,41 @@ theorem gssv_valid_types (dt : Int) (a : GssvArgs) (h : gssv.valid dt a = true) 
     Bool.not_eq_true', decide_eq_false_iff_not] at h
   enum_unfold; omega
 
-/-! #### ?gstrs: L is tested under 3, U under 4, shapes only; c/z also accept CONJ -/
-def gstrs (conjOk : Bool) (a : GstrsArgs) : List (Nat × Bool) :=
-  [(1, decide (¬(a.trans = NOTRANS ∨ a.trans = TRANS ∨ (conjOk = true ∧ a.trans = CONJ)))),
+/-! #### ?gstrs: L is tested under 3, U under 4, shapes only; all four precisions accept CONJ (the c/z header does
+     not list it) -/
+def gstrs (a : GstrsArgs) : List (Nat × Bool) :=
+  [(1, decide (¬(a.trans = NOTRANS ∨ a.trans = TRANS ∨ a.trans = CONJ))),
    (3, gstrs.shape_2 a), (4, gstrs.shape_3 a), (6, gstrs.shape_6 a)]
 
-/-- the exclusion of `?gstrs_first_offender_partial`: L and U well shaped, all documented types right, and (c/z) not
-    the undocumented CONJ — i.e. only `trans` and the leading dimension of B are left to go wrong -/
-def gstrsExcl (conjOk : Bool) (dt : Int) (a : GstrsArgs) : Prop :=
+/-- the exclusion of `?gstrs_first_offender_partial`: L and U well shaped, all documented types right, and — where
+    the header does not list CONJ (c/z) — trans is not CONJ; i.e. only `trans` and the leading dimension of B are
+    left to go wrong -/
+def gstrsExcl (docConj : Bool) (dt : Int) (a : GstrsArgs) : Prop :=
   gstrs.shape_2 a = false ∧ gstrs.shape_3 a = false ∧ gstrs.types_2 dt a = false ∧ gstrs.types_3 dt a = false ∧
-  gstrs.types_6 dt a = false ∧ (conjOk = true → a.trans ≠ CONJ)
-instance (conjOk : Bool) (dt : Int) (a : GstrsArgs) : Decidable (gstrsExcl conjOk dt a) := by
+  gstrs.types_6 dt a = false ∧ (docConj = false → a.trans ≠ CONJ)
+instance (docConj : Bool) (dt : Int) (a : GstrsArgs) : Decidable (gstrsExcl docConj dt a) := by
   unfold gstrsExcl; infer_instance
 
-theorem gstrs_eq_doc (conjOk : Bool) (dt : Int) (a : GstrsArgs) (hx : gstrsExcl conjOk dt a) :
-    firstOffender (gstrs conjOk a) = gstrs.docInfo dt a := by
+theorem gstrs_eq_doc (docConj : Bool) (dt : Int) (a : GstrsArgs) (hx : gstrsExcl docConj dt a) :
+    firstOffender (gstrs a) = gstrs.docInfo docConj dt a := by
   obtain ⟨h2, h3, t2, t3, t6, hc⟩ := hx
   simp only [gstrs, gstrs.docInfo, gstrs.table, gstrs.violates_1, gstrs.violates_2, gstrs.violates_3, gstrs.violates_6,
     h2, h3, t2, t3, t6, Bool.or_false]
-  cases conjOk
-  · table_norm; enum_unfold; chain_steps
+  cases docConj
   · have := hc rfl
     table_norm; enum_unfold; chain_steps
+  · table_norm; enum_unfold; chain_steps
 
-theorem gstrs_valid_excl (conjOk : Bool) (dt : Int) (a : GstrsArgs) (h : gstrs.valid dt a = true) :
-    gstrsExcl conjOk dt a := by
+theorem gstrs_valid_excl (docConj : Bool) (dt : Int) (a : GstrsArgs) (h : gstrs.valid docConj dt a = true) :
+    gstrsExcl docConj dt a := by
   simp only [gstrs.valid, allValid, gstrs.table, List.all_cons, List.all_nil, gstrs.violates_1, gstrs.violates_2,
     gstrs.violates_3, gstrs.violates_6, Bool.and_eq_true, Bool.not_eq_true', Bool.or_eq_false_iff,
     decide_eq_false_iff_not] at h
   refine ⟨h.2.1.1, h.2.2.1.1, h.2.1.2, h.2.2.1.2, h.2.2.2.2.2.1.2, ?_⟩
-  intro _
+  intro hd
   have := h.1
+  subst hd
+  simp only [Bool.false_eq_true, false_and, or_false] at this
   enum_unfold; omega
 
 /-! #### ?gsrfs: position 7 (equed) is not tested -/
@@ -65,23 +69,30 @@ theorem gsrfs_valid_equed (dt : Int) (a : GsrfsArgs) (h : gsrfs.valid dt a = tru
   simp only [gsrfs.valid, allValid, gsrfs.table, List.all_cons, List.all_nil, Bool.and_eq_true, Bool.not_eq_true'] at h
   exact h.2.2.2.2.2.2.1
 
-/-! #### sp_?trsv: trans accepts N and T only; L and U are tested for shape only -/
-def trsv (a : TrsvArgs) : List (Nat × Bool) :=
-  [(1, trsv.violates_1 a), (2, !(isLetter a.trans 78 || isLetter a.trans 84)), (3, trsv.violates_3 a),
-   (4, trsv.shape_4 a), (5, trsv.shape_5 a)]
+/-! #### sp_?trsv: L and U are tested for shape only; c/z accept trans = N and T only (`cOk = false`), s/d also the
+     documented C (`cOk = true`, since /repo 2acf694) -/
+def trsv (cOk : Bool) (a : TrsvArgs) : List (Nat × Bool) :=
+  [(1, trsv.violates_1 a), (2, !(isLetter a.trans 78 || isLetter a.trans 84 || (cOk && isLetter a.trans 67))),
+   (3, trsv.violates_3 a), (4, trsv.shape_4 a), (5, trsv.shape_5 a)]
 
-def trsvExcl (dt : Int) (a : TrsvArgs) : Prop :=
-  isLetter a.trans 67 = false ∧ trsv.types_4 dt a = false ∧ trsv.types_5 dt a = false
-instance (dt : Int) (a : TrsvArgs) : Decidable (trsvExcl dt a) := by unfold trsvExcl; infer_instance
+def trsvExcl (cOk : Bool) (dt : Int) (a : TrsvArgs) : Prop :=
+  (cOk = false → isLetter a.trans 67 = false) ∧ trsv.types_4 dt a = false ∧ trsv.types_5 dt a = false
+instance (cOk : Bool) (dt : Int) (a : TrsvArgs) : Decidable (trsvExcl cOk dt a) := by unfold trsvExcl; infer_instance
 
-theorem trsv_eq_doc (dt : Int) (a : TrsvArgs) (hx : trsvExcl dt a) : firstOffender (trsv a) = trsv.docInfo dt a := by
+theorem trsv_eq_doc (cOk : Bool) (dt : Int) (a : TrsvArgs) (hx : trsvExcl cOk dt a) :
+    firstOffender (trsv cOk a) = trsv.docInfo dt a := by
   obtain ⟨hc, t4, t5⟩ := hx
-  simp only [trsv, trsv.docInfo, trsv.table, trsv.violates_1, trsv.violates_2, trsv.violates_3, trsv.violates_4,
-    trsv.violates_5, hc, t4, t5, Bool.or_false]
-  table_norm; chain_steps
+  cases cOk
+  · have hc' := hc rfl
+    simp only [trsv, trsv.docInfo, trsv.table, trsv.violates_1, trsv.violates_2, trsv.violates_3, trsv.violates_4,
+      trsv.violates_5, hc', t4, t5, Bool.or_false, Bool.false_and]
+    table_norm; chain_steps
+  · simp only [trsv, trsv.docInfo, trsv.table, trsv.violates_1, trsv.violates_2, trsv.violates_3, trsv.violates_4,
+      trsv.violates_5, t4, t5, Bool.or_false, Bool.true_and]
+    table_norm; chain_steps
 
-theorem trsv_valid_excl (dt : Int) (a : TrsvArgs) (hC : isLetter a.trans 67 = false) (h : trsv.valid dt a = true) :
-    trsvExcl dt a := by
+theorem trsv_valid_excl (cOk : Bool) (dt : Int) (a : TrsvArgs) (hC : cOk = false → isLetter a.trans 67 = false)
+    (h : trsv.valid dt a = true) : trsvExcl cOk dt a := by
   simp only [trsv.valid, allValid, trsv.table, List.all_cons, List.all_nil, trsv.violates_4, trsv.violates_5,
     Bool.and_eq_true, Bool.not_eq_true', Bool.or_eq_false_iff] at h
   exact ⟨hC, h.2.2.2.1.2, h.2.2.2.2.1.2⟩
